@@ -1890,6 +1890,21 @@ def ENTRY_POINTS():
             eps.append(H.EP(f"{tag}.build", cls, rate_args, kind="build", serialise=bits_ser, canon=view, group=kind))
             eps.append(H.EP(f"{tag}.from_bits_typed", typed, words(cls, rate_args), kind="parse", serialise=bits_ser, canon=view, group=kind, domain=f"bits{n}"))
 
+    # ---- the two block codes behind slot type / EMB (arrays handed out by generate must be the caller's own)
+    for cname, code, k, n in (("golay2087", L.Golay2087, 8, 20), ("qr1676", L.QuadraticResidue1676, 7, 16)):
+        def data_bits(rng, k=k):
+            return (int2ba(rng.getrandbits(k), length=k),)
+
+        def code_word(rng, code=code, k=k, n=n):
+            w = call(code.generate, int2ba(rng.getrandbits(k), length=k))
+            b = bitarray([int(x) for x in w.tolist()]) if not is_err(w) else bitarray(n)
+            if rng.random() < 0.3:
+                b.invert(rng.randrange(len(b)))
+            return (b,)
+
+        eps.append(H.EP(f"{cname}.generate", code.generate, data_bits, kind="encode", group=cname, observe=H.class_state(code)))
+        eps.append(H.EP(f"{cname}.check", code.check, code_word, kind="check", group=cname))
+
     # ---- data header: library-made valid words (the constructor is from_bits)
     def dh_word(rng):
         o = CrcPdu(None, L, "dh").make(_random.Random(rng.getrandbits(40)), rng.randrange(35))
